@@ -3,6 +3,7 @@
 # Expect VIOLATION. Restores KM/Gen afterwards by re-running the extractor on /repo.
 sha=$1; shift
 W=/tmp/wt-revert-$$
+cp -r /verif/evidence /tmp/evidence-bak-$$
 git -C /repo worktree add -q --detach $W HEAD
 ( cd $W && git revert --no-commit $sha >/dev/null 2>&1 || { echo "revert failed"; } )
 for p in "$@"; do
@@ -10,6 +11,7 @@ for p in "$@"; do
   VERIF_REPO=$W /verif/bin/check $p --tier quick 2>&1 | tail -4
 done
 git -C /repo worktree remove --force $W
+rm -rf /verif/evidence && mv /tmp/evidence-bak-$$ /verif/evidence
 # restore generated files for /repo
 python3 - <<'PY'
 import sys; sys.path.insert(0,'/verif')
